@@ -103,21 +103,19 @@ def run(rep, tier, seed, replay_file=None):
         if bc.run_impl(rep, bc.progress_models(quick), workers=4 if quick else 5, parallel=3):
             bc.run_asis(rep, ["stats", "wait", "recv"])
     with bc.phase(rep, "schedule-generation"):
-        scheds, _ = bc.gen_schedules(rep, quick, seed, 2200 if quick else 9000)
+        scheds, _ = bc.gen_schedules(rep, quick, seed, 1500 if quick else 9000)
     with bc.phase(rep, "schedule-execution"):
         hists = bc.run_schedules(rep, binary, scheds, 12, seed, "broker/sched") if scheds else []
-    if hists:
+    with bc.phase(rep, "recorder"):
+        rec = bc.record(rep, binary, 480 if quick else 6000, seed)
+    if not rec:
+        rep.infra_error("recorder produced no history")
+    if hists or rec:
         with bc.phase(rep, "trace-validation"):
-            bc.judge(rep, hists, TRACE, "broker/sched", shards=8)
+            bc.judge(rep, hists + rec, TRACE, "broker/history", shards=8)
+    if hists:
         rep.sample(dict(kind="driver schedule (BrokerStep) executed with observation at quiescence", schedule=scheds[len(scheds) // 3]))
         rep.sample(dict(kind="recorded history judged by BrokerTrace", events=max(hists[:200], key=len)[:30]))
-    with bc.phase(rep, "recorder"):
-        rec = bc.record(rep, binary, 600 if quick else 6000, seed)
-    if rec:
-        with bc.phase(rep, "trace-validation"):
-            bc.judge(rep, rec, TRACE, "broker/record", shards=8)
-    else:
-        rep.infra_error("recorder produced no history")
     with bc.phase(rep, "self-tests"):
         bc.mutate_selftests(rep, hists + rec, SELFTESTS)
     rep.cov["rule"] = ("schedules = scenarios of BrokerStep (publish bursts of 1-4 before / while subscribers receive, pause and resume, "
